@@ -22,7 +22,8 @@ RULE = (
 ASSUMPTIONS = [
     "explicit integrators: return error <= 1e-11*(1+max|z|)*n; implicit/constrained: 2e-7*(1+max|z|)*n with default "
     "solver tolerances (reverse_check_tol 2e-8 per sub-step is what the code itself guarantees) and 1e-9*(1+max|z|) "
-    "with tightened tolerances (convergence 1e-13, reverse check 1e-9); trajectories whose |z| grows 50x are inconclusive (rounding amplification)",
+    "with tightened tolerances (convergence 1e-13, reverse check 1e-9), each multiplied by the measured sensitivity of the "
+    "n-step map to a 1e-6 displacement of the start (> 1e4: inconclusive); trajectories whose |z| grows 50x are inconclusive (rounding amplification)",
     "IntegratorError subclasses are the documented loud failure and are counted, not judged",
 ]
 REQUIRED = {"round_trips_completed": 150, "input_unchanged_checks": 2000}
@@ -102,6 +103,10 @@ def run_case(case, obs) -> None:  # noqa: C901, PLR0912, PLR0915
         if out is st:
             obs.violation(f"input-returned:{iname}", f"{iname}.step returned its input object")
         zz = np.concatenate([np.asarray(out.pos, dtype=float), np.asarray(out.mom, dtype=float)])
+        if not np.all(np.isfinite(zz)) and explicit:
+            # an explicit step cannot fail loudly; overflow on a diverging trajectory is a property of the dynamics
+            obs.inconc("explicit-integrator-overflow")
+            raise IntegratorError("overflow")
         if not np.all(np.isfinite(zz)):
             obs.violation(f"non-finite-output:{iname}", f"{iname}.step returned a non-finite state without raising; sys={sname} eps={eps:.3g} {spec} {ispec}")
             raise IntegratorError("nonfinite")
@@ -114,6 +119,7 @@ def run_case(case, obs) -> None:  # noqa: C901, PLR0912, PLR0915
     try:
         for _ in range(case["n"]):
             st = step(st)
+        z_mid = np.concatenate([st.pos, st.mom])
         st.dir *= -1
         for _ in range(case["n"]):
             st = step(st)
@@ -126,14 +132,40 @@ def run_case(case, obs) -> None:  # noqa: C901, PLR0912, PLR0915
         return
     err = float(np.max(np.abs(np.concatenate([st.pos, st.mom]) - z0)))
     scale = 1 + maxnorm[0]
+    # sensitivity of the n-step map (how much per-step tolerance-level errors are amplified on the way back):
+    # forward run from a slightly displaced, re-projected start
+    def sensitivity(zs, direction, ref_end):
+        """Amplification of a 1e-6 displacement of the start zs by n steps in the given direction."""
+        delta = 1e-6 * rng.standard_normal(zs.size)
+        q2, p2 = zs[: m.dim] + delta[: m.dim], zs[m.dim:] + delta[m.dim:]
+        if m.constrained:
+            q2 = m.constraint.project(q2, np.linalg.inv(m.metric_dense))
+            p2 = m.ref_projector(q2) @ p2
+        s2 = m.state(q2, p2, direction)
+        for _ in range(case["n"]):
+            s2 = integ.step(s2)
+        d0 = float(np.max(np.abs(np.concatenate([q2, p2]) - zs)))
+        return float(np.max(np.abs(np.concatenate([s2.pos, s2.mom]) - ref_end))) / max(d0, 1e-12)
+
+    sens = 1.0
+    try:
+        # errors made on the way out are amplified by the way back and vice versa: take the larger of both legs
+        sens = max(1.0, sensitivity(z0, case["dir"], z_mid), sensitivity(z_mid, -case["dir"], np.concatenate([st.pos, st.mom])))
+    except (IntegratorError, FloatingPointError, np.linalg.LinAlgError):
+        obs.inconc("sensitivity-not-measurable")
+        return
+    obs.maxi("sensitivity", sens)
+    if sens > 1e4:
+        obs.inconc("trajectory-too-sensitive")
+        return
     if explicit:
-        tol = 1e-11 * scale * case["n"]
+        tol = 1e-11 * scale * case["n"] * sens
         fam = "explicit"
     elif ispec.get("tight"):
-        tol = 1e-9 * scale
+        tol = 1e-9 * scale * sens
         fam = "implicit-tight" if not m.constrained else "constrained-tight"
     else:
-        tol = 2e-7 * scale * case["n"]
+        tol = 2e-7 * scale * case["n"] * sens
         fam = "implicit-default" if not m.constrained else "constrained-default"
     obs.maxi(f"return_error_over_tol.{fam}", err / tol, {"int": ispec, "sys": spec["sys"], "n": case["n"], "eps": eps})
     obs.maxi(f"return_error.{fam}", err / scale)
